@@ -7,8 +7,8 @@ def run(cx):
     # premise of "replace the range entry of the copy": the copy owns its range lists
     from . import fcsdata_rules as R
     R.attrset(cx)
-    T.to_rfi_all(cx, want=('FORMULA', 'SAMELAW', 'WRITESET'))
-    T.to_mef_all(cx, want=('SAMELAW', 'WRITESET'))
+    T.to_rfi_all(cx, want=('FORMULA', 'SAMELAW', 'WRITESET', 'SCALARPATH'))
+    T.to_mef_all(cx, want=('SAMELAW', 'WRITESET', 'SCALARPATH'))
     T.transform_all(cx)
     c08.high_low(cx)
     cx.decided += [
@@ -17,5 +17,6 @@ def run(cx):
         'ranges of other channels are never stored to',
         'the high/low gate reads its default thresholds from range() of the gated channels and compares strictly',
     ]
-    cx.not_decided += ['bitwise agreement between the scalar evaluation of a limit and the vectorised evaluation of an event at the limit (NumPy floating point)',
+    cx.decided += ['SCALARPATH: whether limits and events take the same numeric route - they do not for the log law of to_rfi and for the curves of to_mef (recorded as known findings with failing inputs); the linear law x/g is exactly rounded on both routes']
+    cx.not_decided += ['transform(): the limits are handed to the caller\'s function as a two-element list; which route it takes depends on that function',
                        'that the pipeline order convert-then-gate is used (C10)']
